@@ -1086,7 +1086,7 @@ func (x *Exec) indexAddr(st *State, fr *Frame, in *ssa.IndexAddr) *Val {
 	switch xt := in.X.Type().Underlying().(type) {
 	case *types.Slice:
 		x.checkBounds(st, And(Le(IntLit(0), idx), Lt(idx, base.Len)), "index-in-range", in.Pos())
-		return &Val{K: kPtr, L: &Loc{Base: base.Arr, Root: x.elemRoot(et), Idx: x.bind(st, Add(base.Off, idx), "ix"), T: et}, Typ: in.Type()}
+		return &Val{K: kPtr, L: &Loc{Base: base.Arr, Root: x.elemRoot(et), Idx: Add(base.Off, idx), T: et}, Typ: in.Type()} // kept as (+ off idx): quantified facts over slices trigger on that shape
 	case *types.Pointer:
 		arr := xt.Elem().Underlying().(*types.Array)
 		x.checkNonNil(st, base, in.Pos())
